@@ -296,9 +296,9 @@ def _check_quilt(case, tmp):
             raise Discard('documented refusal: %s' % got.cls)
         raise Failure('raised:%s' % got.cls, 'Quilt %s raised %r; the concatenated Frame gives %s' % (_describe(case), got.exc, short(_snap_any(want), 300)), got.where)
     a, b = _snap_any(want), _snap_any(got)
-    if a != b:
+    if not _same_snap(a, b):
         b = _snap_any(_cast_like(got, want))
-    if a != b:
+    if not _same_snap(a, b):
         raise Failure('quilt-differs', 'Quilt %s -> %s; concatenated Frame -> %s' % (_describe(case), short(b, 500), short(a, 500)))
     if case['backed'] and case['max_persist'] is not None:
         loaded = int(bus.status['loaded'].sum())
@@ -344,6 +344,15 @@ def batch_cases(draw):
         # union and the intersection of the member results differ
         frames.append({'cols': cols, 'index': draw(gen.flat_labels(n, 'int')), 'names': ('a', draw(st.sampled_from(['b', 'c', 'b'])))})
     return {'frames': frames, 'chain': chain, 'export': export, 'tf': tf}
+
+
+def _same_snap(a, b):
+    """Equality of two snapshots; snapshots of unexpected results may hold arrays (an element-wise ==), which are compared by their text."""
+    try:
+        r = a == b
+        return bool(r) if not isinstance(r, np.ndarray) else bool(r.all())
+    except ValueError:
+        return repr(a) == repr(b)
 
 
 def _apply_chain(x, chain, rep=None):
